@@ -355,6 +355,21 @@ class FuncVerifier:
                 todo.extend(self.E.fe.classes[x].bases)
         return out
 
+    def pattern_safe(self, st, sv):
+        """terms used in quantifier patterns must not contain if-then-else / connectives: name them"""
+        def bad(t, depth=0):
+            if depth > 6 or not z3.is_app(t):
+                return False
+            k = t.decl().kind()
+            if k in (z3.Z3_OP_ITE, z3.Z3_OP_AND, z3.Z3_OP_OR, z3.Z3_OP_NOT, z3.Z3_OP_IMPLIES):
+                return True
+            return any(bad(c, depth + 1) for c in t.children())
+        if self.binders or not bad(sv.term):
+            return sv
+        c = self.E.fresh('nm', sv.ty)
+        self.add_fact(st, c.term == sv.term)
+        return c
+
     def note_term(self, st, term):
         """make a ground term visible to E-matching (adds the harmless fact Trig(term))"""
         if self.binders:
@@ -825,10 +840,12 @@ class FuncVerifier:
                 n = P.slen(base.term)
                 lo = self.slice_bound(base.term, node.slice.lower, z3.IntVal(0), st, spec)
                 hi = self.slice_bound(base.term, node.slice.upper, n, st, spec)
+                if node.slice.lower is None and node.slice.upper is None:
+                    return SV(base.term, bt)
                 if node.slice.lower is None:
-                    return SV(P.take(base.term, hi), bt)
+                    return SV(P.slice_to(base.term, coerce(self.ev(node.slice.upper, st, spec), INT).term), bt)
                 if node.slice.upper is None:
-                    return SV(P.drop(base.term, lo), bt)
+                    return SV(P.slice_from(base.term, coerce(self.ev(node.slice.lower, st, spec), INT).term), bt)
                 hi2 = z3.If(hi < lo, lo, hi)
                 return SV(P.drop(P.take(base.term, hi2), lo), bt)
             i = self.norm_index(base.term, node.slice, st, spec)
@@ -940,6 +957,8 @@ class FuncVerifier:
         vars_, (b, pats) = self.with_binder(names, tys, body)
         guards = [self.typed_fact(v, t) for v, t in zip(vars_, tys) if zsort(t) == P.V]
         guards = [g for g in guards if not z3.is_true(g)]
+        if self.ghost is not None:
+            guards = []      # ghost declarations are total: their axioms range over all values
         if guards:
             b = z3.Implies(z3.And(*guards), b) if is_forall else z3.And(*(guards + [b]))
         q = z3.ForAll if is_forall else z3.Exists
@@ -1095,6 +1114,10 @@ class FuncVerifier:
     def heap_write(self, st, base, attr, fty, sv, node):
         from .heap import frame_check
         frame_check(self, st, base, attr, node)
+        if self.c is not None and ('.' + attr) not in self.c.modifies and '.*' not in self.c.modifies:
+            # a write to a field the contract does not list: callers would not havoc it
+            from .heap import ALLOC0
+            self.oblige(st, 'frame[modifies .%s]' % attr, z3.Not(z3.Select(ALLOC0, base.term)), node)
         arr = self.heap_array(st, attr, fty)
         st.heap[attr] = z3.Store(arr, base.term, sv.term)
         st.heap_version += 1
